@@ -42,6 +42,8 @@ static int ts_trace_on = 0;
 
 static int ts_thread_id(sexp ctx) {
   int i;
+  /* a green thread is identified by its stack: eval contexts of one thread share it */
+  ctx = sexp_context_stack(ctx);
   for (i = 0; i < ts_nthreads; i++) if (ts_threads[i] == ctx) return i;
   if (ts_nthreads < TS_MAX_THREADS) { ts_threads[ts_nthreads] = ctx; return ts_nthreads++; }
   return TS_MAX_THREADS - 1;
@@ -99,7 +101,6 @@ static sexp_sint_t ts_on_instr(sexp ctx, unsigned char *ip, sexp_sint_t fuel) {
   if (!ts_armed || !ts_sched_on) return fuel;
   ts_all_instrs++;
   if (ts_horizon && ts_all_instrs > ts_horizon) ts_abort("HORIZON", 8);
-  if (sexp_context_waitp(ctx)) return fuel;
   if (ts_skip_ip == ip && ts_skip_ctx == ctx) {   /* resumed at the pre-empted instruction */
     ts_skip_ip = NULL; ts_skip_ctx = NULL;
     return TS_BIG_FUEL;
